@@ -49,6 +49,7 @@ class Explorer:
         self.only = None
         self.after = None          # optional probe run in the child after A has finished (later single-threaded calls)
         self.counting = None
+        self.abort_exc = None      # fault injection: instead of running B, raise this exception inside A at the preemption point
         self.occ_cap = None        # (first n, last m) dynamic occurrences of every site are explored; None = all
         self.occ_seen = {}
         self.occ_total = {}
@@ -117,6 +118,9 @@ class Explorer:
             self.in_child = True
             mon.set_events(TOOL, 0)
             self.child_w = w
+            if self.abort_exc is not None:
+                self.child_b = ('aborted', site)
+                raise self.abort_exc(f'injected at {site[0]}:{site[2]}')      # propagates into A at exactly this point
             self.child_b = call_value(self.call_b)
             return None
         os.close(w)
